@@ -307,6 +307,7 @@ func (w *vfWorld) cacheStep() bool {
 // workers first, then the connections in order, until nothing is left.
 func (w *vfWorld) settle() {
 	zzvf.Settle()
+	idle := 0
 	for i := 0; i < 200; i++ {
 		progress := false
 		for w.cacheStep() {
@@ -318,8 +319,16 @@ func (w *vfWorld) settle() {
 			}
 		}
 		if !progress {
-			return
+			if zzvf.Symbolic() || idle >= 3 {
+				return
+			}
+			// native mode: goroutines started by `go` statements in the
+			// code under test may still be about to enqueue work
+			idle++
+			time.Sleep(3 * time.Millisecond)
+			continue
 		}
+		idle = 0
 	}
 	zzvf.Assert(false, "harness-settle-terminates")
 }
